@@ -127,6 +127,13 @@ pub fn decoding_key(spec: &Value) -> Option<KeyForDecoding> {
         "secret" => Some(KeyForDecoding::from_secret(spec["value"].as_str()?.as_bytes())),
         "secret_pem_of" => Some(KeyForDecoding::from_secret(keys::pub_pem(spec["alg"].as_str()?))), // a public key's PEM bytes used as HMAC secret
         "rsa" => KeyForDecoding::from_rsa_pem(keys::pub_pem("RS256")).ok(),
+        // the same RSA key handed over as modulus and exponent (how a key arrives in a JWK)
+        "rsa_components" => {
+            let jwk = keys::rsa_jwk();
+            let n = crate::indep::b64url_decode(jwk["n"].as_str()?)?;
+            let e = crate::indep::b64url_decode(jwk["e"].as_str()?)?;
+            KeyForDecoding::from_rsa_components(&n, &e).ok()
+        }
         "ec" => KeyForDecoding::from_ec_pem(keys::pub_pem(spec["alg"].as_str()?)).ok(),
         _ => None,
     }
@@ -135,7 +142,7 @@ pub fn decoding_key(spec: &Value) -> Option<KeyForDecoding> {
 pub fn family_of(spec: &Value) -> &'static str {
     match spec["kind"].as_str().unwrap_or("") {
         "secret" | "secret_pem_of" => "secret",
-        "rsa" => "rsa",
+        "rsa" | "rsa_components" => "rsa",
         "ec" => "ec",
         _ => "other",
     }
@@ -504,6 +511,16 @@ pub fn generate_c04(thorough: bool, seed: u64, em: &mut Emitter) {
                 em.case("decode", c);
             }
         }
+        // (b') the RSA key handed over as modulus and exponent (KeyForDecoding::from_rsa_components, how a key taken from
+        // a JWK arrives) under every configured algorithm: only the token's own algorithm verifies
+        if alg.starts_with("RS") || alg.starts_with("PS") {
+            for palg in keys::ALL_ALGS {
+                let ok = *palg == *alg;
+                let mut c = decode_case(&token, &no_exp(palg), &json!({"kind": "rsa_components"}), alg, true, if ok { "accept" } else { "reject" }, if ok { "accept" } else { "reject" }, true);
+                c["tag"] = json!("matrix_rsa_components");
+                em.case("decode", c);
+            }
+        }
         // (c) a public key's PEM bytes used as HMAC secret, under every HMAC policy and the token's own algorithm
         if !alg.starts_with("HS") {
             for palg in ["HS256", "HS384", "HS512", alg] {
@@ -622,9 +639,26 @@ pub fn generate_c16(thorough: bool, seed: u64, em: &mut Emitter) {
             }
         }
         // through the issuer: Issuer::header(h) ... encode
+        // one issuer in three was configured with another header first (every member set): header() replaces the
+        // header, nothing of the earlier one may survive into the token
+        let replaced = r.chance(1, 3);
         let token = catch_unwind(AssertUnwindSafe(|| {
             let mut iss = sdjwt::Issuer::new(json!({"a": 1, "b": "two"})).ok()?;
-            iss.disclosable("/a").header(h.clone());
+            iss.disclosable("/a");
+            if replaced {
+                let mut first = Header::new(algorithm(&alg));
+                first.typ = Some("first+jwt".to_string());
+                first.cty = Some("first".to_string());
+                first.jku = Some("https://first.example/jwks".to_string());
+                first.kid = Some("first-key".to_string());
+                first.x5u = Some("https://first.example/cert".to_string());
+                first.x5c = Some(vec!["Rmlyc3Q=".to_string()]);
+                first.x5t = Some("first-x5t".to_string());
+                first.x5t_s256 = Some("first-x5t-s256".to_string());
+                first.crit = Some(vec!["first".to_string()]);
+                iss.header(first);
+            }
+            iss.header(h.clone());
             iss.encode(&signing_key(&alg)).ok()
         }));
         let sdjwt_str = match token {
@@ -639,6 +673,9 @@ pub fn generate_c16(thorough: bool, seed: u64, em: &mut Emitter) {
         let mut c = decode_case(&jwt, &no_exp(&alg), &matching_key_spec(&alg), &alg, true, "accept", "accept", subset != 0);
         c["header_spec"] = Value::Object(expect.clone());
         c["expect_header"] = Value::Object(expect);
+        if replaced {
+            c["tag"] = json!("header_replaced");
+        }
         em.case("decode", c);
     }
 }
